@@ -439,6 +439,15 @@ def random_spec(rng, sid, nmin=3, nmax=6, external=False, decoy=False, struct_va
     nS = 0
     for i in range(n):
         r = rng.random()
+        if external and i == 0:
+            # an interface value whose expression is the ONLY reference to its package in the migrated file
+            impl = new_type('ptr', pkg='c/vals')
+            iname = 'I%d' % nI
+            nI += 1
+            types[iname] = {'form': 'iface', 'pkg': ''}
+            elems.append({'kind': 'ifacevalue', 'iface': iname, 'impl': impl, 'pkg': 'c/vals'})
+            produced.append(iname)
+            continue
         if r < 0.12 and i > 0:
             # injected constant (a variable of the main package, or an exported variable of a sub-package)
             vpkg = rng.choice(['a/util', 'c/vals', 'c/vals']) if external and rng.random() < 0.7 else ''
